@@ -239,19 +239,20 @@ func (w *genWorld) check(res roundTripResult, v1, v2 coreView, directed bool) {
 			continue
 		}
 		if m == "operator" && strings.Contains(e, "should be in the avsUSDValues map") {
-			// F-18o: OptIn writes the (AVS, operator) USD value entry at once (InitOperatorUSDValue), the AVS's own USD value is first
+			// F-18o (repaired: Validate reads a missing AVS value as zero; kept under its own sig so that a re-introduction is
+			// reported as such): OptIn writes the (AVS, operator) USD value entry at once (InitOperatorUSDValue), the AVS's own USD value is first
 			// written at the AVS's next epoch end (UpdateVotingPower): exported in between, the module's own export is rejected
 			env.Violate("C18.validate", "validate:operator-avs-value-missing", "an operator opted into an AVS whose USD value has not been written yet (first written at the AVS's next epoch end): the operator module's own export fails GenesisState.Validate: "+e, w.hist)
 			continue
 		}
 		if m == "operator" && strings.Contains(e, "the avs address should be in the opted-in map") && strings.Contains(e, "Amount:0.000000000000000000") {
-			// F-18r: UpdateVotingPower writes the AVS's USD value (0) at every epoch end of the AVS, also when no operator ever
+			// F-18r (repaired: a zero value is accepted; kept under its own sig): UpdateVotingPower writes the AVS's USD value (0) at every epoch end of the AVS, also when no operator ever
 			// opted into it; ValidateAVSUSDValues accepts only AVSs that occur in some opted state
 			env.Violate("C18.validate", "validate:operator-avs-without-operators", "an AVS that no operator has opted into got its USD value (0) written at its epoch end: the operator module's own export fails GenesisState.Validate: "+e, w.hist)
 			continue
 		}
 		if m == "operator" && strings.Contains(e, "shouldn't be greater than the total USD value of the AVS") && w.inactiveAboveAVS() {
-			// F-18p: UpdateVotingPower adds only the ACTIVE operators' totals (self value >= the AVS's minimum self delegation) to the
+			// F-18p (repaired: Validate compares the ACTIVE value; kept under its own sig): UpdateVotingPower adds only the ACTIVE operators' totals (self value >= the AVS's minimum self delegation) to the
 			// AVS's USD value, but stores the total of an inactive operator too; Validate compares every operator's total with it
 			env.Violate("C18.validate", "validate:operator-inactive-total", "an operator below the AVS's minimum self delegation (active value 0) whose total USD value exceeds the sum of the active operators' totals: the operator module's own export fails GenesisState.Validate: "+e, w.hist)
 			continue
